@@ -28,10 +28,12 @@ repeats.  Failing chains are shrunk (events, pieces, re-wrapping, forms).
 """
 import itertools
 
+from fractions import Fraction
+
 import gen
 import learners as L
 import whgen
-from common import rng
+from common import rng, close
 
 TIMEOUT = 120
 
@@ -92,9 +94,52 @@ def model_req(t, es):
                 **{'lambda': t['lambda']}, policy=t['policy'])
 
 
-def chain_problem(t, es, impl, model):
+def chain_model_req(t):
+    """the request for `chainRun` on the parts of this chain (driver op `chain`)"""
+    pieces = []
+    for pc in t['pieces']:
+        q = {'learner': pc['learner'], 'events': pc['events']}
+        if pc['learner'] == 'dict_ndl':
+            q['make_data_array'] = bool(pc.get('make_data_array', False))
+        else:
+            q.update(method=pc['method'], per_job=int(pc.get('per_job', 10)), per_file=int(pc.get('per_file', 10000000)))
+        pieces.append(q)
+    return dict(op='chain', alpha=t['alpha'], beta1=t['beta1'], beta2=t['beta2'], **{'lambda': t['lambda']},
+                policy=t['policy'], pieces=pieces)
+
+
+def chain_state_problem(impl, cm):
+    """the real chain's final state against `chainRun`'s: None, or what differs"""
+    if 'err' in cm:
+        if impl.get('err') != cm['err']:
+            return 'chainRun predicts %s, implementation %s' % (cm['err'], impl.get('err', 'Returned'))
+        if impl.get('failed_piece') != cm.get('failed_piece'):
+            return 'chainRun: call %r of the chain raises, implementation: call %r' % (cm.get('failed_piece'), impl.get('failed_piece'))
+        return None
+    if 'err' in impl:
+        return 'chainRun predicts a result, implementation %s in call %r (%s)' % (impl['err'], impl.get('failed_piece'), impl.get('msg', '')[:120])
+    kind = 'matrix' if impl['is_data_array'] else 'dict'
+    if kind != cm['kind']:
+        return 'the chain ends with a %s, chainRun with a %s' % ({'matrix': 'DataArray', 'dict': 'WeightDict'}[kind], cm['kind'])
+    exact = cm.get('bits', 9999) <= L.EXACT_BITS
+    mc, ic = gen.cells_dict(cm['cells']), gen.cells_dict(impl['cells'])
+    for k in sorted(set(mc) | set(ic)):
+        mv, iv = mc.get(k, Fraction(0)), ic.get(k, Fraction(0))
+        if not close(iv, mv, exact):
+            return 'chainRun: weight[%r][%r] = %s, implementation %s (%s)' % (
+                k[0], k[1], float(mv), float(iv), 'exact domain' if exact else 'tolerance 2^-30')
+    for axis in ('outcomes', 'cues'):
+        if set(impl[axis]) != set(cm[axis]):
+            return '%s labels of the final %s: implementation %r, chainRun %r' % (
+                axis[:-1], cm['kind'], sorted(impl[axis]), sorted(cm[axis]))
+    return None
+
+
+def chain_problem(t, es, impl, model, cmodel=None):
     """the property predicate on one chain: None, or what is wrong"""
     prob = L.compare(impl, model)
+    if prob is None and cmodel is not None:
+        prob = chain_state_problem(impl, cmodel)
     if prob is None and 'err' not in impl:
         if not all(impl['inputs_unmodified']):
             prob = 'weights argument of call %d was modified by that call' % impl['inputs_unmodified'].index(False)
@@ -129,8 +174,8 @@ def shrink_chain(pool, driver, t, budget=50):
         steps += 1
         es = [e for pc in c['pieces'] for e in pc['events']]
         impl = pool.map([c])[0]
-        model = driver.ask([model_req(c, es)])[0]
-        return chain_problem(c, es, impl, model) is not None
+        model, cmodel = driver.ask([model_req(c, es), chain_model_req(c)])
+        return chain_problem(c, es, impl, model, cmodel) is not None
 
     cur = t
     changed = True
@@ -203,6 +248,8 @@ def chain_snippet(t):
 
 
 def run(rep, pool, driver, tier):
+    import bridge
+    bridge.check_bridges(rep)       # driver copies = the definitions of the theorems; TR.v commutes
     r = rng('C03')
     quick = tier == 'quick'
     tasks, metas = [], []
@@ -226,8 +273,9 @@ def run(rep, pool, driver, tier):
                 metas.append((es, cut))
     impls = pool.map(tasks)
     models = driver.ask([model_req(t, es) for t, (es, _) in zip(tasks, metas)])
+    cmodels = driver.ask([chain_model_req(t) for t in tasks])
     failures = []
-    for t, (es, cut), impl, model in zip(tasks, metas, impls, models):
+    for t, (es, cut), impl, model, cmodel in zip(tasks, metas, impls, models, cmodels):
         kinds = [kind_name(pc) for pc in t['pieces']]
         for pc in t['pieces']:
             rep.count('form:%s/%s' % (pc['learner'], pc.get('form', 'path')))
@@ -240,6 +288,9 @@ def run(rep, pool, driver, tier):
         rep.count('events_with_repeats:%s' % ('yes' if gen.has_dup(es) else 'no'))
         rep.count('policy:%s%s' % (t['policy'], '/repeats' if gen.has_dup(es) else ''))
         rep.count('outcome:' + (model.get('err') or 'Returned'))
+        rep.count('chainRun_state:' + (cmodel.get('err') or cmodel['kind']))
+        if 'err' in cmodel:
+            rep.count('chainRun_failed_piece:%d' % cmodel['failed_piece'])
         for k in kinds:
             rep.count('piece:' + k)
         for j, pc in enumerate(t['pieces']):
@@ -253,29 +304,36 @@ def run(rep, pool, driver, tier):
                 rep.count('rewrap_into:' + kind_name(pc))
         if 'err' not in impl:
             rep.count('inplace_same_object_observed', len(impl['inplace_same_object']))
-        prob = chain_problem(t, es, impl, model)
+        prob = chain_problem(t, es, impl, model, cmodel)
         if prob:
-            failures.append((t, es, cut, prob, impl, model))
+            failures.append((t, es, cut, prob, impl, model, cmodel))
         elif 'err' not in impl:
             rep.sample({'kinds': kinds, 'cut': cut, 'events': es, 'policy': t['policy'], 'final_cells': impl['cells'][:4]})
-    for t, es, cut, prob, impl, model in failures[:2]:
+    def which(prob):
+        return ('C03 chain_any_length: chain %s vs chainRun on the same parts (driver op chain)' if 'chainRun' in prob
+                else 'C03 chain_eq_single: chain %s vs single pass of the Lean model')
+
+    def state(x):
+        return {k: x.get(k) for k in ('err', 'failed_piece', 'kind', 'is_data_array', 'outcomes', 'cues', 'cells') if k in x}
+
+    for t, es, cut, prob, impl, model, cmodel in failures[:2]:
         small, steps = shrink_chain(pool, driver, t)
         es2 = [e for pc in small['pieces'] for e in pc['events']]
         impl2 = pool.map([small])[0]
-        model2 = driver.ask([model_req(small, es2)])[0]
-        prob2 = chain_problem(small, es2, impl2, model2)
+        model2, cmodel2 = driver.ask([model_req(small, es2), chain_model_req(small)])
+        prob2 = chain_problem(small, es2, impl2, model2, cmodel2)
         if prob2 is None:
-            small, es2, impl2, model2, prob2 = t, es, impl, model, prob
+            small, es2, impl2, model2, cmodel2, prob2 = t, es, impl, model, cmodel, prob
         kinds = [kind_name(pc) for pc in small['pieces']]
-        rep.violation({'what': prob2, 'input': small, 'observed': impl2.get('cells', impl2.get('err')),
-                       'expected': model2.get('cells', model2.get('err')), 'cut': cut,
+        rep.violation({'what': prob2, 'input': small, 'observed': state(impl2),
+                       'expected': {'single_pass': model2.get('cells', model2.get('err')), 'chainRun': state(cmodel2)}, 'cut': cut,
                        'python': chain_snippet(small), 'shrunk_from_events': len(es), 'shrink_steps': steps,
-                       'theorem_or_stream': 'C03 chain_eq_single: chain %s vs single pass of the Lean model' % ' -> '.join(kinds)})
-    for t, es, cut, prob, impl, model in failures[2:]:
+                       'theorem_or_stream': which(prob2) % ' -> '.join(kinds)})
+    for t, es, cut, prob, impl, model, cmodel in failures[2:]:
         kinds = [kind_name(pc) for pc in t['pieces']]
-        rep.violation({'what': prob, 'input': t, 'observed': impl.get('cells', impl.get('err')),
-                       'expected': model.get('cells', model.get('err')), 'cut': cut,
-                       'theorem_or_stream': 'C03 chain_eq_single: chain %s vs single pass of the Lean model' % ' -> '.join(kinds)})
+        rep.violation({'what': prob, 'input': t, 'observed': state(impl),
+                       'expected': {'single_pass': model.get('cells', model.get('err')), 'chainRun': state(cmodel)}, 'cut': cut,
+                       'theorem_or_stream': which(prob) % ' -> '.join(kinds)})
     rep.extra['failures_total'] = len(failures)
 
     _wh_chains(rep, pool, driver, r, quick)
@@ -289,6 +347,28 @@ WH_CUES_M = WH_CUES + ['c%d' % i for i in range(11)]
 WH_OUTS_M = WH_OUTS + ['o%d' % i for i in range(12)]
 
 
+def wh_chain_req(t):
+    """the request for `whChainRun` on the pieces of this chain (driver op `wh_chain`): the request of the
+    single pass, with the pieces (as the event files read back) instead of their concatenation"""
+    q = whgen.model_request(t)
+    q['op'] = 'wh_chain'
+    del q['events']
+    q['pieces'] = [[[list(c), list(o) if o else ['']] for c, o in p] for p in t['pieces']]
+    return q
+
+
+def wh_problem(impl, model, cmodel):
+    """chain vs single pass of whModel, then chain vs whChainRun (which also says WHICH call fails)"""
+    d = whgen.compare(impl, model)
+    if d is None:
+        d = whgen.compare(impl, cmodel)
+        if d is None and 'err' in cmodel and impl.get('failed_piece') != cmodel.get('failed_piece'):
+            d = 'call %r of the chain raises, implementation: call %r' % (cmodel.get('failed_piece'), impl.get('failed_piece'))
+        if d is not None:
+            d = 'whChainRun: ' + d
+    return d
+
+
 def _shrink_wh(pool, driver, t, budget=40):
     """greedy: drop a piece (two stay), an event of a piece (pieces stay non-empty), a cue / an outcome
     (one of each stays), while chain and single pass of the model still disagree"""
@@ -300,7 +380,7 @@ def _shrink_wh(pool, driver, t, budget=40):
     def fails(c):
         nonlocal steps
         steps += 1
-        return whgen.compare(pool.map([c])[0], driver.ask([whgen.model_request(c)])[0]) is not None
+        return wh_problem(pool.map([c])[0], *driver.ask([whgen.model_request(c), wh_chain_req(c)])) is not None
 
     cur = [[[list(c), list(o)] for c, o in p] for p in t['pieces']]
     changed = True
@@ -373,8 +453,9 @@ def _wh_chains(rep, pool, driver, r, quick):
                     tasks.append((dict(base, pieces=[es[a:b] for a, b in cut]), cut, medium))
     impls = pool.map([t for t, _, _ in tasks])
     models = driver.ask([whgen.model_request(t) for t, _, _ in tasks])
+    cmodels = driver.ask([wh_chain_req(t) for t, _, _ in tasks])
     n_shrunk = 0
-    for (t, cut, medium), impl, model in zip(tasks, impls, models):
+    for (t, cut, medium), impl, model, cmodel in zip(tasks, impls, models, cmodels):
         rep.case({k: v for k, v in t.items() if k != 'op'}, nontrivial=True, stream='wh_chain')
         rep.count('wh_chain:' + t['flavour'])
         rep.count('chain_len:%d' % len(cut))
@@ -387,17 +468,21 @@ def _wh_chains(rep, pool, driver, r, quick):
                 len({x for pc in t['pieces'][1:] for c, o in pc for x in c + o} - seen)))
         if 'err' not in model:
             rep.count('wh_exact_domain' if model.get('bits', 9999) <= 53 else 'wh_tolerance_domain')
-        d = whgen.compare(impl, model)
+        rep.count('whChainRun_outcome:' + (cmodel.get('err') or 'Returned'))
+        d = wh_problem(impl, model, cmodel)
         if d is not None and n_shrunk < 2:
             n_shrunk += 1
             small, steps = _shrink_wh(pool, driver, t)
             impl2 = pool.map([small])[0]
-            model2 = driver.ask([whgen.model_request(small)])[0]
-            d2 = whgen.compare(impl2, model2)
+            model2, cmodel2 = driver.ask([whgen.model_request(small), wh_chain_req(small)])
+            d2 = wh_problem(impl2, model2, cmodel2)
             if d2 is not None:
-                t, impl, model, d = dict(small, shrink_steps=steps), impl2, model2, d2
+                t, impl, model, cmodel, d = dict(small, shrink_steps=steps), impl2, model2, cmodel2, d2
         if d is not None:
             rep.violation({'what': d, 'input': t, 'cut': cut, 'observed': impl.get('cells', impl.get('err')),
-                           'expected': model.get('cells', model.get('err')),
-                           'theorem_or_stream': 'C03 chain_eq_single for wh.wh %s: chain of %d calls vs single pass of whModel'
+                           'expected': {'single_pass': model.get('cells', model.get('err')),
+                                        'whChainRun': cmodel.get('cells', cmodel.get('err'))},
+                           'theorem_or_stream': ('C03 wh chain %s: chain of %d calls vs whChainRun on the same pieces (driver op wh_chain)'
+                                                 if d.startswith('whChainRun') else
+                                                 'C03 chain_eq_single for wh.wh %s: chain of %d calls vs single pass of whModel')
                                                 % (t['flavour'], len(cut))})
